@@ -443,8 +443,13 @@ def execute(case):
                 problems.append(['singleton_typehint', repr(hi)[:200]])
     # global hooks at quiescence
     quiesce = {}
-    if ibe.cache_from_source is not orig_cfs:
-        problems.append(['cache_from_source_not_restored', repr(ibe.cache_from_source)])
+    # importlib's cache_from_source must behave like the original at quiescence (it may stay wrapped)
+    try:
+        same = ibe.cache_from_source('/x/pkg/mod.py') == orig_cfs('/x/pkg/mod.py')
+    except Exception as e:      # noqa
+        same = repr(e)
+    if same is not True:
+        problems.append(['cache_from_source_not_restored', repr(same)])
     if _hook_count() > 1:
         problems.append(['duplicate_path_hook', str(_hook_count())])
     if warnings.showwarning is not showwarning_expected or warnings._showwarnmsg_impl is not impl_expected:
